@@ -134,10 +134,19 @@ def gen_source(rng, n, newline='\n'):
             sep = rng.choice([' // ', '//', ' //']) + rng.choice(['c', '"x', "it's", 'é 0x', '', '']) + newline
         if src.endswith('/') and sep.startswith('/'):
             sep = ' ' + sep      # `/` directly followed by `//` would itself start the comment
+        text, desc = gen_atom(rng)
+        # tokens need no white space between them where the boundary is unambiguous: a word directly followed by punctuation
+        # (not an identifier by `!`, which spells a builtin; not by `.`), punctuation directly followed by a word
+        if exp and rng.random() < 0.25:
+            import re as _re
+            prev_text, prev_desc = src[exp[-1][0]:exp[-1][1]], exp[-1][3] or ''
+            word = lambda t: bool(_re.fullmatch(r'[A-Za-z0-9_]+', t))
+            if len(src) == exp[-1][1] and ((word(prev_text) and text in PUNCT and not text.startswith('.') and not (text.startswith('!') and prev_desc.startswith('id:')))
+                                           or (prev_text in PUNCT and word(text))):
+                sep = ''
         if src or rng.random() < 0.5:
             src += sep
             line += sep.count('\n')
-        text, desc = gen_atom(rng)
         exp.append((len(src), len(src) + len(text), line, desc))
         src += text
     if rng.random() < 0.5:
